@@ -44,6 +44,11 @@ def time_names(spec, meth):
         for x in ca.MX(e).e:
             if not ca.isnum(x):
                 names |= {n for n in ca._consts(x) if n in ca._SYMS}
+    # a horizon given by a PARAMETER is data, not a decision variable
+    opti = getattr(spec, "opti", None)
+    if opti is not None:
+        decision = {str(x) for v in opti._vars for x in v.e}
+        names &= decision
     return names
 
 
